@@ -58,7 +58,7 @@ type Query struct {
 	Z         bool   `json:"z"`
 	Opcode    int    `json:"opcode"`
 	Opt       *Opt   `json:"opt"`
-	Malformed string `json:"malformed"` // "" | qr | q0 | q2 | answer | ns | extra2
+	Malformed string `json:"malformed"` // "" | qr | q0 | q2 | answer | ns | extra2 | wirecut (wire image cut inside the first label of the question, or inside the header for the root name; only via sockets/DoH)
 	UDP       bool   `json:"udp"`
 	Via       string `json:"via"` // handle (EntryHandler.Handle directly) | get | post (HttpHandler) | tcpsrv (ServeTCP on loopback) | udpsrv (ServeUDP on loopback)
 }
@@ -185,6 +185,9 @@ func genCase(t *rapid.T) Case {
 		}
 		q.UDP = rapid.Bool().Draw(t, "udp")
 		q.Via = rapid.SampledFrom([]string{"handle", "handle", "handle", "handle", "get", "post", "tcpsrv", "udpsrv"}).Draw(t, "via")
+		if q.Via != "handle" && q.Malformed == "" && rapid.IntRange(0, 7).Draw(t, "wirecut") == 3 {
+			q.Malformed = "wirecut"
+		}
 		switch q.Via {
 		case "udpsrv":
 			q.UDP = true
@@ -434,7 +437,7 @@ func runCase(c Case, ctx *hx.Ctx) *hx.Failure {
 		if q.Via == "" || q.Via == "handle" {
 			payload = h.Handle(context.Background(), m, meta, pack)
 		} else {
-			w, sendErr := sendVia(q.Via, h, m, q.Malformed != "")
+			w, sendErr := sendVia(q.Via, h, m, q.Malformed != "", q.Malformed == "wirecut")
 			ctx.Class("via=" + q.Via)
 			if sendErr != nil {
 				if q.Malformed == "" {
@@ -568,10 +571,21 @@ func TestReplay(t *testing.T) { hx.Replay(t, "TestPropHandler", 3, runCase) }
 
 // sendVia delivers the query through one of the real servers in front of the handler and
 // returns the reply bytes; an error means "no DNS reply".
-func sendVia(via string, h *server_handler.EntryHandler, m *dns.Msg, expectNothing bool) ([]byte, error) {
+func sendVia(via string, h *server_handler.EntryHandler, m *dns.Msg, expectNothing, cut bool) ([]byte, error) {
 	w, err := m.Pack()
 	if err != nil {
 		return nil, fmt.Errorf("query does not pack: %w", err)
+	}
+	if cut && len(w) > 13 {
+		// the header announces a question the datagram / frame / body does not contain. The cut is inside the first
+		// label (a question cut exactly after its name or after its type is read leniently as type/class 0 by the
+		// DNS library and is then a well-formed query in the sense of the property); for the root name the header
+		// itself is cut.
+		if w[12] != 0 {
+			w = w[:13]
+		} else {
+			w = w[:11]
+		}
 	}
 	switch via {
 	case "get", "post":
